@@ -42,7 +42,7 @@ CONFIGS_ALL = [(8, 1), (8, 2), (8, 3), (8, 4), (8, 5), (8, 8), (8, 17),
                (32, 1), (32, 2), (32, 3), (32, 10),
                (64, 1), (64, 2), (64, 3), (64, 5), (64, 17), (64, 128)]
 CONFIGS_QUICK = [c for c in CONFIGS_ALL if c != (64, 128)]
-CONFIGS_SMALL = [(8, 1), (8, 2), (8, 3), (16, 1), (16, 2), (16, 3), (32, 1), (32, 2), (32, 3), (64, 1), (64, 2), (64, 3)]
+CONFIGS_SMALL = [(8, 1), (8, 3), (8, 5), (16, 2), (16, 3), (32, 1), (32, 3), (64, 1), (64, 2), (64, 3)]   # for_configs_small!
 
 
 def to_digits(v, w, n):
